@@ -65,6 +65,13 @@ func runC12(c *fw.Ctx) {
 	for _, m := range core {
 		alpha = append(alpha, bt.Op{Kind: "MutateRow", Table: tblT, Key: []byte("a"), Muts: []bt.Mut{m}})
 	}
+	// histories that leave a row stored WITHOUT any cell (a family drop empties it; the row object stays in the
+	// store), and a family that comes back: "the row has a cell" must be judged on cells, not on stored rows
+	alpha = append(alpha,
+		bt.Op{Kind: "ModifyFamilies", Table: tblT, Mods: []bt.Mod{{ID: "g", Op: "drop"}}},
+		bt.Op{Kind: "ModifyFamilies", Table: tblT, Mods: []bt.Mod{{ID: "g", Op: "drop"}, {ID: "g", Op: "create", GC: &bt.GC{Kind: "maxver", N: 1}}}},
+		bt.Op{Kind: "DropRowRange", Table: tblT, Prefix: []byte("a")},
+	)
 	lists := [][]bt.Mut{
 		nil,
 		{mset("f", "n", 5000, "new")},
